@@ -6,8 +6,8 @@ import NixModel.Lemmas.C04Del
 
 `Generated/DeleteShape.lean` holds the statement lists of nixio's deletion paths (see
 `Store/DelShape.lean` for their meaning). Here: for all graphs, containers and keys the meaning of
-the generated constants equals `contDel`, `Graph.deleteAll`, `h5Delete`, `setRole … none` and
-`subtreeIds`, and the container table equals `containerInfo`.
+the generated constants equals `contDel`, `Graph.deleteObjs`, `h5Delete`, `setRole … none` and
+`subtreeKeys`, and the container table equals `containerInfo`.
 -/
 namespace Nix.Store.C04
 open Nix.Store Nix.Store.Graph Nix.Store.DelShape
@@ -25,7 +25,7 @@ theorem containerInfo_feature {ok cn : String} {info : CInfo} (h : containerInfo
   split at h <;> first | (cases h; first | rfl | (revert hi; decide)) | cases h
 
 /-- `if not isinstance(item, self._itemclass): raise TypeError` on a resolved item -/
-theorem exec_require (P : H5DeleteParams) (c : Cont) (tail : List DStmt) (g : Graph) (k : Nat) (ids : List String) :
+theorem exec_require (P : H5DeleteParams) (c : Cont) (tail : List DStmt) (g : Graph) (k : Nat) (ids : List Nat) :
     exec P c (.requireItem :: tail) g (.ent k) ids =
       if kindOf g k != c.info.item then .error .typeError else exec P c tail g (.ent k) ids := by
   simp only [exec, isInst]
@@ -88,25 +88,25 @@ theorem runDel_eq_contDel (g : Graph) (c : Cont) (key : Key)
     cases delTarget g c key with
     | error e => rfl
     | ok k =>
-      simp only [exec_require, isOwning, delIds, hfl, ↓reduceIte]
+      simp only [exec_require, isOwning, delKeys, hfl, ↓reduceIte]
       split
       · rfl
-      · simp only [exec, evalSrc]; rfl
+      · simp only [exec, evalSrc]
   case features =>
     rw [exec_resolve _ _ _ _ _ _ (Or.inl rfl)]
     cases delTarget g c key with
     | error e => rfl
     | ok k =>
-      simp only [exec_require, isOwning, delIds, hfl, ↓reduceIte]
+      simp only [exec_require, isOwning, delKeys, hfl, ↓reduceIte]
       split
       · rfl
-      · simp only [exec, evalSrc]; rfl
+      · simp only [exec, evalSrc]
   case sections =>
     rw [exec_resolve _ _ _ _ _ _ (Or.inr ⟨rfl, hfeat (by rw [hfl]; decide)⟩)]
     cases delTarget g c key with
     | error e => rfl
     | ok k =>
-      simp only [exec_require, isOwning, delIds, hfl, ↓reduceIte]
+      simp only [exec_require, isOwning, delKeys, hfl, ↓reduceIte]
       split
       · rfl
       · simp only [exec, evalSrc]
@@ -115,10 +115,10 @@ theorem runDel_eq_contDel (g : Graph) (c : Cont) (key : Key)
     cases delTarget g c key with
     | error e => rfl
     | ok k =>
-      simp only [exec_require, isOwning, delIds, hfl, ↓reduceIte]
+      simp only [exec_require, isOwning, delKeys, hfl, ↓reduceIte]
       split
       · rfl
-      · simp only [exec, evalSrc]; rfl
+      · simp only [exec, evalSrc]
   case link =>
     rw [exec_resolve _ _ _ _ _ _ (Or.inr ⟨rfl, hfeat (by rw [hfl]; decide)⟩)]
     cases delTarget g c key with
@@ -161,30 +161,26 @@ theorem openCont_info {g : Graph} {p : Path} {cn : String} {c : Cont} (h : openC
 
 /-! ## `delete_all` -/
 
-theorem runBody_scan (g : Graph) (ids : List String) (k : Nat) :
-    runBody g ids k 64 Gen.deleteAllScan {} =
-      { deleted := doomed g ids k, stop := false, skip := false } := by
+theorem runBody_scan (ks : List Nat) (k : Nat) :
+    runBody ks k 64 Gen.deleteAllScan {} =
+      { deleted := doomed ks k, stop := false, skip := false } := by
   simp only [Gen.deleteAllScan, runBody]
-  unfold attrIn doomed Graph.entityId
-  cases g.getAttr k "entity_id" with
-  | none => rfl
-  | some i =>
-    simp only
-    by_cases hc : i ∈ ids <;> simp [hc]
+  unfold objIn doomed
+  by_cases hc : k ∈ ks <;> simp [hc]
 
-theorem scanLinks_eq (g : Graph) (ids : List String) (ls : List (String × Nat)) :
-    scanLinks g ids Gen.deleteAllScan ls = ls.filter (keepLink g ids) := by
+theorem scanLinks_eq (ks : List Nat) (ls : List (String × Nat)) :
+    scanLinks ks Gen.deleteAllScan ls = ls.filter (keepLink ks) := by
   induction ls with
   | nil => rfl
   | cons l rest ih =>
     rw [scanLinks, runBody_scan]
     simp only [Bool.false_eq_true, ↓reduceIte, ih, List.filter_cons, keepLink]
-    by_cases hd : doomed g ids l.2 = true <;> simp [hd]
+    by_cases hd : doomed ks l.2 = true <;> simp [hd]
 
-/-- **the visitor of `H5Group.delete_all`, as written in `h5group.py`, is `Graph.deleteAll`** -/
-theorem scanAll_eq_deleteAll (g : Graph) (ids : List String) :
-    scanAll g ids Gen.deleteAllScan = g.deleteAll ids := by
-  rw [deleteAll_eq]
+/-- **the visitor of `H5Group.delete_all`, as written in `h5group.py`, is `Graph.deleteObjs`** -/
+theorem scanAll_eq_deleteObjs (g : Graph) (ks : List Nat) :
+    scanAll g ks Gen.deleteAllScan = g.deleteObjs ks := by
+  rw [deleteObjs_eq]
   unfold scanAll
   simp only [scanLinks_eq]
 
